@@ -1113,7 +1113,7 @@ theorem flush_pres (P : Nat → SendRel → Prop) (Q : Packet → Prop) (B : Nat
     (hrel : ∀ ch s seq avail, P ch s → (s.getPackets seq avail c.now).2.2.1 ≤ B →
       P ch (s.getPackets seq avail c.now).1 ∧ ∀ p ∈ (s.getPackets seq avail c.now).2.1, Q p)
     (hunrel : ∀ (s : SendUnrel) seq avail, ∀ p ∈ (s.getPackets seq avail).2.1, Q p)
-    (hack : ∀ seq l, Q (Packet.ack seq l))
+    (hack : ∀ seq, Q (Packet.ack seq c.pendingAcks))
     (h : c.getPacketsToSend = .ok (c', bs)) (hb : c'.packetSeq ≤ B)
     (hc : ∀ ch s, SMap.find? c.sendRel ch = some s → P ch s) :
     (∀ ch s, SMap.find? c'.sendRel ch = some s → P ch s) ∧ ∀ p ∈ flushPk c, Q p := by
@@ -1131,7 +1131,7 @@ theorem flush_pres (P : Nat → SendRel → Prop) (Q : Packet → Prop) (B : Nat
       intro p hp
       rcases mem_flushPk_cases hp with hp | rfl
       · exact h2 p hp
-      · exact hack _ _
+      · exact hack _
     rcases hser with ⟨hok, rfl⟩ | ⟨e, herr, rfl, rfl⟩
     · have hf : flushPk c = (if c.pendingAcks.isEmpty then pk0 else pk0 ++ [Packet.ack seq0 c.pendingAcks]) := by
         unfold flushPk; rw [hd]; simp only [Bool.false_eq_true, ↓reduceIte, hl, hok]
@@ -1303,7 +1303,7 @@ theorem inv1_step {cfg : Cfg} {s s' : Sys} {pkA : List Packet} {op : SysOp} (h :
       obtain ⟨g1, g2⟩ := flush_pres (P1 cfg s.submitted) (PktGen s.submitted) a'.packetSeq
         (fun ch sA seq avail hp _ => p1_getPackets cfg s.submitted s.a.now ch sA seq avail hp)
         (fun sU seq avail p hp => pktGen_of_not_rel (unrel_not_rel sU seq avail p hp))
-        (fun _ _ => trivial) hm (Nat.le_refl _)
+        (fun _ => trivial) hm (Nat.le_refl _)
         (fun ch sA hf => ⟨h.chanA ch sA hf, h.invA.1.chans ch sA hf⟩)
       refine ⟨.flush h.reachA hm, h.reachB, fun ch sA hf => (g1 ch sA hf).1, ?_, ⟨?_, ?_⟩, ?_, ?_⟩
       · simp only [nextPk, List.map_append, h.encA, f1]
@@ -1377,8 +1377,8 @@ theorem inv1_step {cfg : Cfg} {s s' : Sys} {pkA : List Packet} {op : SysOp} (h :
 structure CountersOK (cfg : Cfg) (s : Sys) : Prop where
   chan : ∀ c ∈ cfg.send, c.id < 256
   seq : s.a.packetSeq ≤ Varint.MAX + 1
-  ids : ∀ ch, (s.submitted ch).length ≤ Varint.MAX + 1
-  lens : ∀ ch, ∀ m ∈ s.submitted ch, m.length ≤ MAX_NUM_SLICES * SLICE_SIZE
+  ids : ∀ c ∈ cfg.send, (s.submitted c.id).length ≤ Varint.MAX + 1
+  lens : ∀ c ∈ cfg.send, ∀ m ∈ s.submitted c.id, m.length ≤ MAX_NUM_SLICES * SLICE_SIZE
 
 theorem step_mono {cfg : Cfg} {s s' : Sys} {pkA : List Packet} {op : SysOp} (h : Inv1 cfg s pkA)
     (hs : s.step op = some s') :
@@ -1446,9 +1446,9 @@ theorem step_mono {cfg : Cfg} {s s' : Sys} {pkA : List Packet} {op : SysOp} (h :
 theorem counters_step {cfg : Cfg} {s s' : Sys} {pkA : List Packet} {op : SysOp} (h : Inv1 cfg s pkA)
     (hs : s.step op = some s') (hc : CountersOK cfg s') : CountersOK cfg s := by
   obtain ⟨m1, m2, -⟩ := step_mono h hs
-  refine ⟨hc.chan, Nat.le_trans m1 hc.seq, fun ch => Nat.le_trans (m2 ch).length_le (hc.ids ch), ?_⟩
-  intro ch m hm
-  exact hc.lens ch m ((m2 ch).subset hm)
+  refine ⟨hc.chan, Nat.le_trans m1 hc.seq, fun c hcm => Nat.le_trans (m2 c.id).length_le (hc.ids c hcm), ?_⟩
+  intro c hcm m hm
+  exact hc.lens c hcm m ((m2 c.id).subset hm)
 
 /-! ## system invariants, layer 2 (under `CountersOK`): the wire round trip and the receiver -/
 
@@ -1593,7 +1593,7 @@ theorem decoded_genuine {cfg : Cfg} {s : Sys} {pkA : List Packet} (h1 : Inv1 cfg
     exact ⟨h1.genA _ hmem, _, hp, he, rfl, fun _ => rfl⟩
   | false =>
     rw [hr] at hrel
-    exact ⟨pktGen_of_not_rel hrel, p, hp, he, hsq, fun h => by cases h⟩
+    exact ⟨pktGen_of_not_rel hrel, p, hp, he, hsq, fun h => (by rw [hr] at h; cases h)⟩
 
 theorem inv2_step {cfg : Cfg} {s s' : Sys} {pkA : List Packet} {op : SysOp} (h1 : Inv1 cfg s pkA) (h2 : Inv2 cfg s pkA)
     (hs : s.step op = some s') (hc : CountersOK cfg s') : Inv2 cfg s' (nextPk s op pkA) := by
@@ -1605,7 +1605,7 @@ theorem inv2_step {cfg : Cfg} {s s' : Sys} {pkA : List Packet} {op : SysOp} (h1 
       cases hs
       cases hacc : accepted s.a a' ch with
       | false =>
-        simp only [hacc, Bool.false_eq_true, ↓reduceIte]
+        simp only [Bool.false_eq_true, ↓reduceIte]
         exact ⟨h2.wfA, h2.recvB, h2.concl⟩
       | true =>
         simp only [↓reduceIte]
@@ -1708,11 +1708,12 @@ theorem inv2_step {cfg : Cfg} {s s' : Sys} {pkA : List Packet} {op : SysOp} (h1 
       obtain ⟨-, g2⟩ := flush_pres (P2 s.submitted) (fun p => isRel p = true → p.WF) (Varint.MAX + 1)
         (fun ch sA seq avail hp hseq => p2_getPackets s.submitted s.a.now ch sA seq avail hp hseq)
         (fun sU seq avail p hp hr => by rw [unrel_not_rel sU seq avail p hp] at hr; cases hr)
-        (fun _ _ hr => by cases hr) hm hc.seq
+        (fun _ hr => by cases hr) hm hc.seq
         (fun ch sA hf => by
           obtain ⟨hg, c, hcm, hce⟩ := h1.chanA ch sA hf
           obtain ⟨hi, hch⟩ := h1.invA.1.chans ch sA hf
-          exact ⟨⟨hg, hi, hch⟩, ⟨by rw [← hce]; exact hc.chan c hcm, hc.ids ch, hc.lens ch⟩⟩)
+          subst hce
+          exact ⟨⟨hg, hi, hch⟩, ⟨hc.chan c hcm, hc.ids c hcm, hc.lens c hcm⟩⟩)
       intro p hp
       simp only [nextPk, List.mem_append] at hp
       rcases hp with hp | hp
@@ -1781,5 +1782,681 @@ theorem inv2_step {cfg : Cfg} {s s' : Sys} {pkA : List Packet} {op : SysOp} (h1 
     · split at hs
       · cases hs; exact ⟨h2.wfA, h2.recvB, h2.concl⟩
       · cases hs
+
+/-! ## reading the channel kind off the configuration -/
+
+/-- channel id `ch` is configured (A → B) as ReliableOrdered: some entry says so, and no entry with that id says
+    ReliableUnordered (with unique ids, as the Rust constructor asserts, the second part is vacuous) -/
+def Cfg.Ordered (cfg : Cfg) (ch : Nat) : Prop :=
+  (∃ c ∈ cfg.send, c.id = ch ∧ c.kind = .ordered) ∧ ∀ c ∈ cfg.send, c.id = ch → c.kind ≠ .unordered
+
+def Cfg.Unordered (cfg : Cfg) (ch : Nat) : Prop :=
+  (∃ c ∈ cfg.send, c.id = ch ∧ c.kind = .unordered) ∧ ∀ c ∈ cfg.send, c.id = ch → c.kind ≠ .ordered
+
+theorem relKind_of_cfg (cfg : Cfg) (ch : Nat) (b : Bool)
+    (hex : ∃ c ∈ cfg.send, c.id = ch ∧ c.kind ≠ .unreliable)
+    (hall : ∀ c ∈ cfg.send, c.id = ch → c.kind ≠ .unreliable → (c.kind == .ordered) = b) : RelKind cfg ch = some b := by
+  unfold RelKind
+  simp only [Sys.init, Conn.fromChannels]
+  obtain ⟨c0, hc0, hid0, hk0⟩ := hex
+  have hsome := SI.foldl_insert_isSome (fun c : ChanCfg => c.id) (fun c => RecvRel.new c.maxMem (c.kind == .ordered))
+    (cfg.send.filter (·.kind != .unreliable)) [] ch
+    (Or.inr ⟨c0, List.mem_filter.mpr ⟨hc0, by simpa using hk0⟩, hid0⟩)
+  cases hf : SMap.find? ((cfg.send.filter (·.kind != .unreliable)).foldl
+      (fun m c => SMap.insert m c.id (RecvRel.new c.maxMem (c.kind == .ordered))) []) ch with
+  | none => rw [hf] at hsome; cases hsome
+  | some r =>
+    rcases SI.foldl_insert_find (fun c : ChanCfg => c.id) (fun c => RecvRel.new c.maxMem (c.kind == .ordered)) _ _ ch r hf with h | ⟨c, hc, h1, h2⟩
+    · cases h
+    · obtain ⟨hcm, hck⟩ := List.mem_filter.mp hc
+      subst h2
+      simp only [Option.map_some, RecvRel.new, Option.some.injEq]
+      exact hall c hcm h1 (by simpa using hck)
+
+theorem relKind_ordered {cfg : Cfg} {ch : Nat} (h : cfg.Ordered ch) : RelKind cfg ch = some true := by
+  obtain ⟨⟨c, hc, hid, hk⟩, hall⟩ := h
+  refine relKind_of_cfg cfg ch true ⟨c, hc, hid, by rw [hk]; decide⟩ ?_
+  intro c' hc' hid' hk'
+  have := hall c' hc' hid'
+  cases hkk : c'.kind with
+  | ordered => rfl
+  | unordered => exact absurd hkk this
+  | unreliable => exact absurd hkk hk'
+
+theorem relKind_unordered {cfg : Cfg} {ch : Nat} (h : cfg.Unordered ch) : RelKind cfg ch = some false := by
+  obtain ⟨⟨c, hc, hid, hk⟩, hall⟩ := h
+  refine relKind_of_cfg cfg ch false ⟨c, hc, hid, by rw [hk]; decide⟩ ?_
+  intro c' hc' hid' hk'
+  have := hall c' hc' hid'
+  cases hkk : c'.kind with
+  | ordered => exact absurd hkk this
+  | unordered => rfl
+  | unreliable => exact absurd hkk hk'
+
+/-! ## layer 3 (C08): a message leaves `unacked` only after its packets were handed to the peer -/
+
+theorem sentInfo_relMsgs {p : Packet} {ch : Nat} {ids : List Nat} (h : Conn.sentInfoOf p = .ok (.relMsgs ch ids)) :
+    ∃ sq msgs, p = .smallReliable sq ch msgs ∧ ids = msgs.map (·.1) := by
+  cases p with
+  | smallReliable sq c msgs => simp only [Conn.sentInfoOf, Res.ok.injEq, SentInfo.relMsgs.injEq] at h; exact ⟨sq, msgs, by rw [h.1], h.2.symm⟩
+  | reliableSlice sq c sl => simp [Conn.sentInfoOf] at h
+  | smallUnreliable sq c msgs => simp [Conn.sentInfoOf] at h
+  | unreliableSlice sq c sl => simp [Conn.sentInfoOf] at h
+  | ack sq ranges =>
+    simp only [Conn.sentInfoOf] at h
+    split at h
+    · cases h
+    · rename_i a e _
+      cases hc : (Res.csub e 1 "remote_connection.rs last_range.end - 1" : Res Empty Nat) with
+      | ok v => rw [hc] at h; simp at h
+      | err x => exact x.elim
+      | panic m => rw [hc] at h; cases h
+
+theorem sentInfo_relSlice {p : Packet} {ch id idx : Nat} (h : Conn.sentInfoOf p = .ok (.relSlice ch id idx)) :
+    ∃ sq sl, p = .reliableSlice sq ch sl ∧ sl.messageId = id ∧ sl.sliceIndex = idx := by
+  cases p with
+  | smallReliable sq c msgs => simp [Conn.sentInfoOf] at h
+  | reliableSlice sq c sl =>
+    simp only [Conn.sentInfoOf, Res.ok.injEq, SentInfo.relSlice.injEq] at h
+    exact ⟨sq, sl, by rw [h.1], h.2.1, h.2.2⟩
+  | smallUnreliable sq c msgs => simp [Conn.sentInfoOf] at h
+  | unreliableSlice sq c sl => simp [Conn.sentInfoOf] at h
+  | ack sq ranges =>
+    simp only [Conn.sentInfoOf] at h
+    split at h
+    · cases h
+    · rename_i a e _
+      cases hc : (Res.csub e 1 "remote_connection.rs last_range.end - 1" : Res Empty Nat) with
+      | ok v => rw [hc] at h; simp at h
+      | err x => exact x.elim
+      | panic m => rw [hc] at h; cases h
+
+/-- sequence numbers identify A's packets -/
+theorem seq_inj : ∀ {pk : List Packet}, (pk.map Packet.sequence).Pairwise (· < ·) → ∀ {p q : Packet}, p ∈ pk → q ∈ pk →
+    p.sequence = q.sequence → p = q
+  | [], _, _, _, hp, _, _ => by cases hp
+  | x :: rest, hpw, p, q, hp, hq, he => by
+    simp only [List.map_cons, List.pairwise_cons] at hpw
+    simp only [List.mem_cons] at hp hq
+    rcases hp with rfl | hp <;> rcases hq with rfl | hq
+    · rfl
+    · have := hpw.1 _ (List.mem_map.mpr ⟨q, hq, rfl⟩); omega
+    · have := hpw.1 _ (List.mem_map.mpr ⟨p, hp, rfl⟩); omega
+    · exact seq_inj hpw.2 hp hq he
+
+/-- `process_packet` on the send side: nothing changed, or a live connection processed an ack packet -/
+theorem processPacket_eff' {c c' : Conn} {bytes : Bytes} (h : c.SendInv) (hr : c.processPacket bytes = .ok c') :
+    (c'.sendRel = c.sendRel) ∨
+    ∃ aseq ranges L, c.isDisconnected = false ∧ Packet.fromBytes bytes = .ok (.ack aseq ranges) ∧
+      (∀ x ∈ L, Acks.Mem x ranges) ∧
+      (∀ ch s, SMap.find? c.sendRel ch = some s → ∃ s', SMap.find? c'.sendRel ch = some s' ∧ SI.ChanEff c.sent L ch s s') ∧
+      (∀ ch, SMap.find? c.sendRel ch = none → SMap.find? c'.sendRel ch = none) := by
+  rcases SI.Conn.processPacket_cases hr with ⟨hs, -, -⟩ | ⟨p, -, -, hs, -⟩ | ⟨aseq, ranges, L, hd, hp, -, -⟩
+  · exact Or.inl hs.1
+  · exact Or.inl hs.1
+  · obtain ⟨L', c2, -, e, -, eff, hmem, -⟩ := SI.Conn.processPacket_ack_spec h hd hp
+    rw [e] at hr; cases hr
+    exact Or.inr ⟨aseq, ranges, L', hd, hp, fun x hx => (hmem x hx).2, fun ch s hs => eff.chan ch s hs, fun ch hn => eff.nochan ch hn⟩
+
+theorem processPacket_sent {c c' : Conn} {bytes : Bytes} (h : c.SendInv) (hr : c.processPacket bytes = .ok c') :
+    (∀ k v, SMap.find? c'.sent k = some v → SMap.find? c.sent k = some v) ∧
+    (c'.isDisconnected = false → c.isDisconnected = false) := by
+  refine ⟨C08.sent_table_only_shrinks_on_process c c' bytes h hr, ?_⟩
+  intro hd'
+  cases hd : c.isDisconnected with
+  | false => rfl
+  | true =>
+    unfold Conn.processPacket at hr
+    rw [if_pos hd] at hr; cases hr
+    rw [hd] at hd'; cases hd'
+
+/-- an ack packet that encodes decodes to itself -/
+theorem ack_enc_decodes {seq : Nat} {l : List AckRange} {b : Bytes} (hw : Acks.WF l)
+    (he : (Packet.ack seq l).enc = .ok b) : Packet.fromBytes b = .ok (.ack seq l) := by
+  obtain ⟨hs, x, hx, hx2⟩ := SI.enc_ack_bounds he
+  have hne : l ≠ [] := by intro e; rw [e] at hx; cases hx
+  have hb : ∀ r ∈ l, r.2 ≤ Varint.MAX + 1 := by
+    intro r hr
+    have := SI.Acks.wf_le_last hw x hx r hr
+    omega
+  obtain ⟨b', hb', hd⟩ := Packet.fromBytes_enc (.ack seq l) ⟨hs, Acks.ackWF_of_wf l hne hw hb⟩
+  rw [he] at hb'; cases hb'
+  exact hd
+
+theorem enc_mem {pk : List Packet} {bs : List Bytes} (h : pk.map encO = bs.map some) {b : Bytes} (hb : b ∈ bs) :
+    ∃ p ∈ pk, p.enc = .ok b := by
+  obtain ⟨k, hk, rfl⟩ := List.mem_iff_getElem.mp hb
+  obtain ⟨p, hp, he⟩ := enc_lookup h (List.getElem?_eq_getElem hk)
+  exact ⟨p, List.mem_of_getElem? hp, he⟩
+
+theorem sendMessage_sent {c c' : Conn} {ch : Nat} {m : Bytes} (h : c.sendMessage ch m = .ok c') :
+    c'.sent = c.sent ∧ (c'.isDisconnected = false → c.isDisconnected = false) := by
+  unfold Conn.sendMessage at h
+  split at h
+  · cases h; exact ⟨rfl, fun h => h⟩
+  · rename_i hd
+    have hd' : c.isDisconnected = false := by simpa using hd
+    split at h
+    · split at h
+      · cases h; exact ⟨rfl, fun _ => hd'⟩
+      · cases h; exact ⟨(c.disconnectWith_same _).1.2.2.1, fun _ => hd'⟩
+    · split at h
+      · cases h; exact ⟨rfl, fun _ => hd'⟩
+      · cases h
+
+/-- the sent-table entries of a live connection after a flush: old ones, or records of this flush's packets -/
+theorem flush_sent {c c' : Conn} {bs : List Bytes} (hinv : c.SendInv) (h : c.getPacketsToSend = .ok (c', bs))
+    (hd' : c'.isDisconnected = false) :
+    ∀ seq t info, SMap.find? c'.sent seq = some (t, info) →
+      SMap.find? c.sent seq = some (t, info) ∨ ∃ p ∈ flushPk c, p.sequence = seq ∧ Conn.sentInfoOf p = .ok info := by
+  intro seq t info hf
+  rcases getPacketsToSend_unfold h with ⟨hd, hc', hbs⟩ | ⟨hd, sr, su, pk0, seq0, avail, sent, hl, hrec, hser⟩
+  · rw [hc'] at hf; exact Or.inl hf
+  · rcases hser with ⟨hok, rfl⟩ | ⟨e, herr, rfl, rfl⟩
+    · have hfp : flushPk c = (if c.pendingAcks.isEmpty then pk0 else pk0 ++ [Packet.ack seq0 c.pendingAcks]) := by
+        unfold flushPk; rw [hd]; simp only [Bool.false_eq_true, ↓reduceIte, hl, hok]
+      obtain ⟨-, r2⟩ := SI.Conn.recordSent_spec _ _ _ _ hrec hinv.sentSorted
+      dsimp only at hf
+      rcases r2 _ (SI.find?_some_mem hf) with hold | ⟨p, hp, hp1, hp2⟩
+      · exact Or.inl (SI.mem_find?_of_sorted hinv.sentSorted hold)
+      · exact Or.inr ⟨p, by rw [hfp]; exact hp, hp1.symm, hp2⟩
+    · rw [disconnectWith_isDisconnected] at hd'; cases hd'
+
+/-- a packet with sequence number `x` was handed to B -/
+def DelivSeq (D : List Nat) (pkA : List Packet) (x : Nat) : Prop :=
+  ∃ k ∈ D, ∃ p, pkA[k]? = some p ∧ p.sequence = x
+
+/-- a small-message packet of channel `ch` carrying message `id` was handed to B -/
+def SmallDeliv (D : List Nat) (pkA : List Packet) (ch id : Nat) : Prop :=
+  ∃ k ∈ D, ∃ sq msgs, pkA[k]? = some (.smallReliable sq ch msgs) ∧ id ∈ msgs.map (·.1)
+
+/-- the packet carrying slice `i` of message `id` of channel `ch` was handed to B -/
+def SliceDeliv (D : List Nat) (pkA : List Packet) (ch id i : Nat) : Prop :=
+  ∃ k ∈ D, ∃ sq sl, pkA[k]? = some (.reliableSlice sq ch sl) ∧ sl.messageId = id ∧ sl.sliceIndex = i
+
+/-- every packet needed to rebuild message `m` (id `id` of channel `ch`) was handed to B -/
+def Released (D : List Nat) (pkA : List Packet) (ch id : Nat) (m : Bytes) : Prop :=
+  (m.length ≤ SLICE_SIZE → SmallDeliv D pkA ch id) ∧
+  (SLICE_SIZE < m.length → ∀ i, i < divCeil m.length SLICE_SIZE → SliceDeliv D pkA ch id i)
+
+theorem getElem?_prefix {α : Type} {l l' : List α} (h : l <+: l') {k : Nat} {x : α} (hx : l[k]? = some x) : l'[k]? = some x :=
+  prefix_getElem? h hx
+
+theorem DelivSeq.mono {D D' : List Nat} {pk pk' : List Packet} (hD : ∀ k ∈ D, k ∈ D') (hp : pk <+: pk') {x : Nat}
+    (h : DelivSeq D pk x) : DelivSeq D' pk' x := by
+  obtain ⟨k, hk, p, h1, h2⟩ := h
+  exact ⟨k, hD k hk, p, getElem?_prefix hp h1, h2⟩
+
+theorem SmallDeliv.mono {D D' : List Nat} {pk pk' : List Packet} (hD : ∀ k ∈ D, k ∈ D') (hp : pk <+: pk') {ch id : Nat}
+    (h : SmallDeliv D pk ch id) : SmallDeliv D' pk' ch id := by
+  obtain ⟨k, hk, sq, msgs, h1, h2⟩ := h
+  exact ⟨k, hD k hk, sq, msgs, getElem?_prefix hp h1, h2⟩
+
+theorem SliceDeliv.mono {D D' : List Nat} {pk pk' : List Packet} (hD : ∀ k ∈ D, k ∈ D') (hp : pk <+: pk') {ch id i : Nat}
+    (h : SliceDeliv D pk ch id i) : SliceDeliv D' pk' ch id i := by
+  obtain ⟨k, hk, sq, sl, h1, h2⟩ := h
+  exact ⟨k, hD k hk, sq, sl, getElem?_prefix hp h1, h2⟩
+
+theorem Released.mono {D D' : List Nat} {pk pk' : List Packet} (hD : ∀ k ∈ D, k ∈ D') (hp : pk <+: pk') {ch id : Nat}
+    {m : Bytes} (h : Released D pk ch id m) : Released D' pk' ch id m :=
+  ⟨fun hl => (h.1 hl).mono hD hp, fun hl i hi => (h.2 hl i hi).mono hD hp⟩
+
+/-- release evidence for one reliable send channel: every logged message that is no longer stored was released with
+    cause; every slice of a stored sliced message is still pending or its packet was handed to B -/
+structure RelEv (D : List Nat) (pkA : List Packet) (L : List Bytes) (ch : Nat) (sA : SendRel) : Prop where
+  gone : ∀ id m, L[id]? = some m → SMap.find? sA.unacked id = none → Released D pkA ch id m
+  marked : ∀ id m n k nx a ls, SMap.find? sA.unacked id = some (.sliced m n k nx a ls) → ∀ i, i < n →
+    sA.Pending id i ∨ SliceDeliv D pkA ch id i
+
+theorem RelEv.mono {D D' : List Nat} {pk pk' : List Packet} (hD : ∀ k ∈ D, k ∈ D') (hp : pk <+: pk') {L : List Bytes}
+    {ch : Nat} {sA : SendRel} (h : RelEv D pk L ch sA) : RelEv D' pk' L ch sA :=
+  ⟨fun id m h1 h2 => (h.gone id m h1 h2).mono hD hp,
+   fun id m n k nx a ls hf i hi => (h.marked id m n k nx a ls hf i hi).imp (fun x => x) (fun x => x.mono hD hp)⟩
+
+theorem relEv_new (D : List Nat) (pk : List Packet) (ch c resend maxMem : Nat) : RelEv D pk [] ch (SendRel.new c resend maxMem) :=
+  ⟨fun id m h _ => by simp at h, fun id m n k nx a ls hf => by simp [SendRel.new] at hf⟩
+
+theorem relEv_send {D : List Nat} {pk : List Packet} {L : List Bytes} {ch : Nat} {s s' : SendRel} {m : Bytes}
+    (h : RelEv D pk L ch s) (hg : ChanG L s) (hi : s.Inv) (hs : s.sendMessage m = .ok s') : RelEv D pk (L ++ [m]) ch s' := by
+  have hnone := hi.find_nextId
+  unfold SendRel.sendMessage at hs
+  split at hs
+  · cases hs
+  · simp only [Except.ok.injEq] at hs
+    subst hs
+    constructor
+    · intro id m' hL hf
+      dsimp only at hf
+      rw [SMap.find?_insert] at hf
+      split at hf
+      · cases hf
+      · rename_i hne
+        have hlt : id < (L ++ [m]).length := (List.getElem?_eq_some_iff.mp hL).1
+        have hlt' : id < L.length := by
+          simp only [List.length_append, List.length_cons, List.length_nil] at hlt
+          have := hg.nid; omega
+        rw [List.getElem?_append_left hlt'] at hL
+        exact h.gone id m' hL hf
+    · intro id m' n k nx a ls hf i hi'
+      dsimp only at hf
+      rw [SMap.find?_insert] at hf
+      split at hf
+      · rename_i he
+        left
+        split at hf
+        · simp only [Unacked.newSliced, Option.some.injEq, Unacked.sliced.injEq] at hf
+          obtain ⟨rfl, rfl, rfl, rfl, rfl, rfl⟩ := hf
+          refine ⟨m, divCeil m.length SLICE_SIZE, 0, 0, List.replicate (divCeil m.length SLICE_SIZE) false,
+            List.replicate (divCeil m.length SLICE_SIZE) none, ?_, ?_⟩
+          · dsimp only; rw [SMap.find?_insert, if_pos he]; simp [Unacked.newSliced, *]
+          · simp [hi']
+        · cases hf
+      · rename_i hne
+        rcases h.marked id m' n k nx a ls hf i hi' with ⟨m2, n2, k2, nx2, a2, ls2, hf2, ha2⟩ | hd
+        · left
+          exact ⟨m2, n2, k2, nx2, a2, ls2, by dsimp only; rw [SMap.find?_insert, if_neg hne]; exact hf2, ha2⟩
+        · exact Or.inr hd
+
+theorem relEv_getPackets {D : List Nat} {pk : List Packet} {L : List Bytes} {ch : Nat} {s : SendRel}
+    (h : RelEv D pk L ch s) (hi : s.Inv) (seq avail now : Nat) : RelEv D pk L ch (s.getPackets seq avail now).1 := by
+  have hsim : SI.MapSim s.unacked (s.getPackets seq avail now).1.unacked :=
+    (SI.SendRel.getPackets_spec hi seq avail now _ _ _ _ rfl).2.2.2.2.1
+  constructor
+  · intro id m hL hf
+    rcases hsim.find id with ⟨h1, -⟩ | ⟨u, u', -, h2, -⟩
+    · exact h.gone id m hL h1
+    · rw [hf] at h2; cases h2
+  · intro id m n k nx a ls hf i hi'
+    rcases hsim.find id with ⟨-, h2⟩ | ⟨u, u', h1, h2, h3⟩
+    · rw [hf] at h2; cases h2
+    · rw [hf] at h2; cases h2
+      cases u with
+      | small => exact h3.elim
+      | sliced m0 n0 k0 nx0 a0 ls0 =>
+        obtain ⟨rfl, rfl, rfl, rfl, -⟩ := h3
+        exact (h.marked id _ _ _ _ _ _ h1 i hi').imp (fun hp => SI.MapSim.pending hsim hp) (fun x => x)
+
+structure InvR (cfg : Cfg) (s : Sys) (pkA : List Packet) : Prop where
+  /-- every entry of A's sent table (while A is live) records a packet A really emitted, under its number -/
+  sentA : s.a.isDisconnected = false → ∀ seq t info, SMap.find? s.a.sent seq = some (t, info) →
+    ∃ p ∈ pkA, p.sequence = seq ∧ Conn.sentInfoOf p = .ok info
+  /-- B's pending acks name only packets that were handed to B -/
+  ackB : ∀ x, Acks.Mem x s.b.pendingAcks → DelivSeq s.deliveredToB pkA x
+  /-- every ack packet B ever emitted acknowledges only packets that were handed to B -/
+  ackOutB : ∀ b ∈ s.outB, ∀ aseq ranges, Packet.fromBytes b = .ok (.ack aseq ranges) →
+    ∀ x, Acks.Mem x ranges → DelivSeq s.deliveredToB pkA x
+  relA : ∀ ch sA, SMap.find? s.a.sendRel ch = some sA → RelEv s.deliveredToB pkA (s.submitted ch) ch sA
+
+theorem invR_init (cfg : Cfg) : InvR cfg (Sys.init cfg) [] := by
+  refine ⟨?_, ?_, fun _ h => (by cases h), ?_⟩
+  · intro _ seq t info hf
+    simp [Sys.init, Conn.fromChannels] at hf
+  · intro x hx
+    simp [Sys.init, Conn.fromChannels] at hx
+  · intro ch sA hf
+    simp only [Sys.init, Conn.fromChannels] at hf
+    rcases SI.foldl_insert_find (fun c : ChanCfg => c.id) (fun c => SendRel.new c.id c.resend c.maxMem) _ _ ch sA hf with h | ⟨c, -, -, h2⟩
+    · cases h
+    · subst h2; exact relEv_new _ _ _ _ _ _
+
+/-- the ack chain: a sequence number covered by an ack packet B emitted, and recorded in A's sent table, is the
+    number of a packet of A that was handed to B — and the table entry describes that very packet -/
+theorem ack_chain {cfg : Cfg} {s : Sys} {pkA : List Packet} (h1 : Inv1 cfg s pkA) (hR : InvR cfg s pkA)
+    {bytes : Bytes} (hb : bytes ∈ s.outB) {aseq : Nat} {ranges : List AckRange}
+    (hp : Packet.fromBytes bytes = .ok (.ack aseq ranges)) (hd : s.a.isDisconnected = false)
+    {seq t : Nat} {info : SentInfo} (hm : Acks.Mem seq ranges) (hf : SMap.find? s.a.sent seq = some (t, info)) :
+    ∃ k ∈ s.deliveredToB, ∃ p, pkA[k]? = some p ∧ p.sequence = seq ∧ Conn.sentInfoOf p = .ok info := by
+  obtain ⟨k, hk, p1, hp1, hs1⟩ := hR.ackOutB bytes hb aseq ranges hp seq hm
+  obtain ⟨p2, hp2, hs2, hi2⟩ := hR.sentA hd seq t info hf
+  have : p1 = p2 := seq_inj h1.seqA.1 (List.mem_of_getElem? hp1) hp2 (hs1.trans hs2.symm)
+  subst this
+  exact ⟨k, hk, p1, hp1, hs1, hi2⟩
+
+theorem relEv_ack {cfg : Cfg} {s : Sys} {pkA : List Packet} (h1 : Inv1 cfg s pkA) (hR : InvR cfg s pkA)
+    {bytes : Bytes} (hb : bytes ∈ s.outB) {a' : Conn} (hm : s.a.processPacket bytes = .ok a')
+    (hG' : ∀ ch sA, SMap.find? a'.sendRel ch = some sA → ChanG (s.submitted ch) sA) (hI' : a'.SendInv) :
+    ∀ ch sA', SMap.find? a'.sendRel ch = some sA' → RelEv s.deliveredToB pkA (s.submitted ch) ch sA' := by
+  intro ch sA' hf'
+  have hI := h1.invA.1
+  rcases processPacket_eff' hI hm with hsame | ⟨aseq, ranges, L, hd, hp, hL, hch, hno⟩
+  · rw [hsame] at hf'; exact hR.relA ch sA' hf'
+  · have chain : ∀ seq ∈ L, ∀ t info, SMap.find? s.a.sent seq = some (t, info) →
+        ∃ k ∈ s.deliveredToB, ∃ p, pkA[k]? = some p ∧ p.sequence = seq ∧ Conn.sentInfoOf p = .ok info :=
+      fun seq hs t info hf => ack_chain h1 hR hb hp hd (hL seq hs) hf
+    have chainSlice : ∀ seq ∈ L, ∀ t id i, SMap.find? s.a.sent seq = some (t, .relSlice ch id i) →
+        SliceDeliv s.deliveredToB pkA ch id i := by
+      intro seq hs t id i hf
+      obtain ⟨k, hk, p, hpk, -, hinfo⟩ := chain seq hs t _ hf
+      obtain ⟨sq, sl, rfl, e1, e2⟩ := sentInfo_relSlice hinfo
+      exact ⟨k, hk, sq, sl, hpk, e1, e2⟩
+    cases hpre : SMap.find? s.a.sendRel ch with
+    | none => rw [hno ch hpre] at hf'; cases hf'
+    | some sA =>
+      obtain ⟨s2, hs2, eff⟩ := hch ch sA hpre
+      rw [hf'] at hs2; cases hs2
+      have hold := hR.relA ch sA hpre
+      have hG := (h1.chanA ch sA hpre).1
+      have hiA := (hI.chans ch sA hpre).1
+      have hiA' := (hI'.chans ch sA' hf').1
+      have hGA' := hG' ch sA' hf'
+      constructor
+      · intro id m hLm hnone
+        cases hfu : SMap.find? sA.unacked id with
+        | none => exact hold.gone id m hLm hfu
+        | some u =>
+          have hum : u.msg = m := by
+            have := hG.gen _ (SI.find?_some_mem hfu)
+            rw [hLm] at this; exact (Option.some.inj this).symm
+          have hok := hiA.find_ok hfu
+          obtain ⟨seq, hs, t, info, hfs, hn⟩ := eff.just id (by rw [hfu]; simp) hnone
+          cases u with
+          | small m0 ls =>
+            simp only [Unacked.msg] at hum; subst hum
+            have hlen : m0.length ≤ SLICE_SIZE := hok
+            refine ⟨fun _ => ?_, fun hl => by omega⟩
+            rcases hn with ⟨ids, rfl, hid⟩ | ⟨idx, rfl⟩
+            · obtain ⟨k, hk, p, hpk, -, hinfo⟩ := chain seq hs t _ hfs
+              obtain ⟨sq, msgs, rfl, rfl⟩ := sentInfo_relMsgs hinfo
+              exact ⟨k, hk, sq, msgs, hpk, hid⟩
+            · obtain ⟨s0, hs0, hi0⟩ := (hI.sentOK _ (SI.find?_some_mem hfs)).2 ch rfl
+              rw [hpre] at hs0; cases hs0
+              exact (hi0.2 _ hfu).elim
+          | sliced m0 n k nx a ls =>
+            simp only [Unacked.msg] at hum; subst hum
+            obtain ⟨o1, o2, -⟩ := hok
+            refine ⟨fun hl => by omega, fun _ i hi' => ?_⟩
+            rw [← o2] at hi'
+            rcases hold.marked id _ _ _ _ _ _ hfu i hi' with hpend | hdel
+            · rcases eff.pend id i hpend with ⟨m2, n2, k2, nx2, a2, ls2, hf2, -⟩ | ⟨seq2, hs2, t2, hf2⟩
+              · rw [hnone] at hf2; cases hf2
+              · exact chainSlice seq2 hs2 t2 id i hf2
+            · exact hdel
+      · intro id m n k nx a ls hfs' i hi'
+        cases hfu : SMap.find? sA.unacked id with
+        | none => rw [eff.gone id hfu] at hfs'; cases hfs'
+        | some u =>
+          have hLm := hGA'.gen _ (SI.find?_some_mem hfs')
+          have hum := hG.gen _ (SI.find?_some_mem hfu)
+          simp only [Unacked.msg] at hLm
+          rw [hLm] at hum
+          have hum' : u.msg = m := (Option.some.inj hum).symm
+          obtain ⟨p1, p2, -⟩ := hiA'.find_ok hfs'
+          have hok := hiA.find_ok hfu
+          cases u with
+          | small m0 ls0 =>
+            simp only [Unacked.msg] at hum'; subst hum'
+            have : m0.length ≤ SLICE_SIZE := hok
+            omega
+          | sliced m0 n0 k0 nx0 a0 ls0 =>
+            simp only [Unacked.msg] at hum'; subst hum'
+            obtain ⟨-, o2, -⟩ := hok
+            have hn : n0 = n := o2.trans p2.symm
+            subst hn
+            rcases hold.marked id _ _ _ _ _ _ hfu i hi' with hpend | hdel
+            · rcases eff.pend id i hpend with hp' | ⟨seq2, hs2, t2, hf2⟩
+              · exact Or.inl hp'
+              · exact Or.inr (chainSlice seq2 hs2 t2 id i hf2)
+            · exact Or.inr hdel
+
+theorem rel_not_ack (s : SendRel) (seq avail now : Nat) : ∀ p ∈ (s.getPackets seq avail now).2.1, SI.isAckPkt p = false := by
+  intro p hp
+  have := SendRel.getPackets_genuine (s := s) (seq := seq) (avail := avail) (now := now) rfl p hp
+  cases p with
+  | ack _ _ => exact this.elim
+  | smallReliable _ _ _ => rfl
+  | reliableSlice _ _ _ => rfl
+  | smallUnreliable _ _ _ => rfl
+  | unreliableSlice _ _ _ => rfl
+
+theorem unrel_not_ack (s : SendUnrel) (seq avail : Nat) : ∀ p ∈ (s.getPackets seq avail).2.1, SI.isAckPkt p = false := by
+  intro p hp
+  have := (SendUnrel.getPackets_emitted (s := s) (seq := seq) (avail := avail) rfl).2 p hp
+  cases p with
+  | ack _ _ => exact this.elim
+  | smallReliable _ _ _ => rfl
+  | reliableSlice _ _ _ => rfl
+  | smallUnreliable _ _ _ => rfl
+  | unreliableSlice _ _ _ => rfl
+
+/-- the only ack packet of a flush carries exactly the pending list -/
+theorem flush_acks {c c' : Conn} {bs : List Bytes} (h : c.getPacketsToSend = .ok (c', bs)) :
+    ∀ p ∈ flushPk c, SI.isAckPkt p = true → ∃ sq, p = Packet.ack sq c.pendingAcks :=
+  (flush_pres (fun _ _ => True) (fun p => SI.isAckPkt p = true → ∃ sq, p = Packet.ack sq c.pendingAcks) c'.packetSeq
+    (fun _ sA seq avail _ _ => ⟨trivial, fun p hp ha => by rw [rel_not_ack sA seq avail c.now p hp] at ha; cases ha⟩)
+    (fun sU seq avail p hp ha => by rw [unrel_not_ack sU seq avail p hp] at ha; cases ha)
+    (fun sq _ => ⟨sq, rfl⟩) h (Nat.le_refl _) (fun _ _ _ => trivial)).2
+
+theorem find?_of_sublist {α : Type} {m m' : SMap α} (hs : SI.Sorted m) (hsub : m'.Sublist m) {k : Nat} {v : α}
+    (h : SMap.find? m' k = some v) : SMap.find? m k = some v :=
+  SI.mem_find?_of_sorted hs (hsub.subset (SI.find?_some_mem h))
+
+theorem invR_step {cfg : Cfg} {s s' : Sys} {pkA : List Packet} {op : SysOp} (h1 : Inv1 cfg s pkA) (hR : InvR cfg s pkA)
+    (hs : s.step op = some s') : InvR cfg s' (nextPk s op pkA) := by
+  have h1' := inv1_step h1 hs
+  cases op with
+  | sendA ch m =>
+    simp only [Sys.step] at hs
+    split at hs
+    · rename_i a' hm
+      cases hs
+      obtain ⟨e1, e2⟩ := sendMessage_sent hm
+      refine ⟨fun hd => by dsimp only at hd ⊢; rw [e1]; exact hR.sentA (e2 hd), hR.ackB, hR.ackOutB, ?_⟩
+      rcases sendMessage_cases hm with ⟨hacc, s0, s1, hf, hsend, rfl⟩ | ⟨hacc, hsr⟩
+      · intro ch2 sA hf2
+        dsimp only at hf2 ⊢
+        rw [hacc]
+        simp only [↓reduceIte]
+        rw [SMap.find?_insert] at hf2
+        split at hf2
+        · rename_i e
+          subst e
+          cases hf2
+          rw [push_same]
+          exact relEv_send (hR.relA ch s0 hf) (h1.chanA ch s0 hf).1 (h1.invA.1.chans ch s0 hf).1 hsend
+        · rename_i e
+          rw [push_other _ _ (fun e' => e e'.symm)]
+          exact hR.relA ch2 sA hf2
+      · dsimp only
+        rw [hacc, hsr]
+        exact hR.relA
+    · cases hs
+  | recvB ch =>
+    simp only [Sys.step] at hs
+    split at hs
+    · rename_i b' m hm
+      cases hs
+      exact ⟨hR.sentA, by dsimp only; rw [(SI.Conn.receiveMessage_same hm).2]; exact hR.ackB, hR.ackOutB, hR.relA⟩
+    · rename_i b' hm
+      cases hs
+      exact ⟨hR.sentA, by dsimp only; rw [(SI.Conn.receiveMessage_same hm).2]; exact hR.ackB, hR.ackOutB, hR.relA⟩
+    · cases hs
+  | updA dt =>
+    simp only [Sys.step] at hs
+    split at hs
+    · rename_i a' hm
+      cases hs
+      obtain ⟨e1, -, -, -, -, e6⟩ := SI.Conn.update_spec hm
+      obtain ⟨-, e7⟩ := update_recv hm
+      refine ⟨?_, hR.ackB, hR.ackOutB, by dsimp only; rw [e1]; exact hR.relA⟩
+      intro hd seq t info hf
+      dsimp only at hd hf
+      rw [isDisconnected_congr e7] at hd
+      rw [e6] at hf
+      exact hR.sentA hd seq t info (find?_of_sublist h1.invA.1.sentSorted (List.dropWhile_sublist _) hf)
+    · cases hs
+  | updB dt =>
+    simp only [Sys.step] at hs
+    split at hs
+    · rename_i b' hm
+      cases hs
+      exact ⟨hR.sentA, by dsimp only; rw [(SI.Conn.update_spec hm).2.2.2.2.1]; exact hR.ackB, hR.ackOutB, hR.relA⟩
+    · cases hs
+  | flushA =>
+    simp only [Sys.step] at hs
+    split at hs
+    · rename_i a' bs hm
+      cases hs
+      have hpre : pkA <+: pkA ++ flushPk s.a := List.prefix_append _ _
+      have hD : ∀ k ∈ s.deliveredToB, k ∈ s.deliveredToB := fun _ h => h
+      refine ⟨?_, fun x hx => (hR.ackB x hx).mono hD hpre,
+        fun b hb aseq ranges hp x hx => (hR.ackOutB b hb aseq ranges hp x hx).mono hD hpre, ?_⟩
+      · intro hd seq t info hf
+        dsimp only at hd hf
+        simp only [nextPk]
+        rcases flush_sent h1.invA.1 hm hd seq t info hf with hold | ⟨p, hp, hp1, hp2⟩
+        · obtain ⟨p, hp, hp1, hp2⟩ := hR.sentA ((flush_facts h1.invA.1 hm).2.2.2.2.2.2 hd) seq t info hold
+          exact ⟨p, List.mem_append_left _ hp, hp1, hp2⟩
+        · exact ⟨p, List.mem_append_right _ hp, hp1, hp2⟩
+      · obtain ⟨g1, -⟩ := flush_pres
+          (fun ch sA => RelEv s.deliveredToB pkA (s.submitted ch) ch sA ∧ sA.Inv) (fun _ => True) a'.packetSeq
+          (fun ch sA seq avail hp _ => ⟨⟨relEv_getPackets hp.1 hp.2 seq avail s.a.now,
+              (SI.SendRel.getPackets_spec hp.2 seq avail s.a.now _ _ _ _ rfl).1⟩, fun _ _ => trivial⟩)
+          (fun _ _ _ _ _ => trivial) (fun _ => trivial) hm (Nat.le_refl _)
+          (fun ch sA hf => ⟨hR.relA ch sA hf, (h1.invA.1.chans ch sA hf).1⟩)
+        intro ch sA hf
+        exact (g1 ch sA hf).1.mono hD hpre
+    · cases hs
+  | flushB =>
+    simp only [Sys.step] at hs
+    split at hs
+    · rename_i b' bs hm
+      cases hs
+      obtain ⟨f1, -, -, -, -, f6, -⟩ := flush_facts h1.invB.1 hm
+      refine ⟨hR.sentA, by dsimp only; rw [f6]; exact hR.ackB, ?_, hR.relA⟩
+      intro b hb aseq ranges hp x hx
+      dsimp only at hb ⊢
+      rw [List.mem_append] at hb
+      rcases hb with hb | hb
+      · exact hR.ackOutB b hb aseq ranges hp x hx
+      · obtain ⟨p, hpm, he⟩ := enc_mem f1 hb
+        obtain ⟨-, htag⟩ := fromBytes_of_enc he hp
+        have hack : SI.isAckPkt p = true := by
+          have := isAck_of_tag htag
+          simpa [SI.isAckPkt] using this.symm
+        obtain ⟨sq, rfl⟩ := flush_acks hm p hpm hack
+        have := ack_enc_decodes h1.invB.2 he
+        rw [hp] at this
+        simp only [Except.ok.injEq, Packet.ack.injEq] at this
+        rw [this.2] at hx
+        exact hR.ackB x hx
+    · cases hs
+  | deliverToB k =>
+    simp only [Sys.step] at hs
+    split at hs
+    · cases hs
+    · rename_i bytes hb
+      split at hs
+      · rename_i b' hm
+        cases hs
+        have hD : ∀ j ∈ s.deliveredToB, j ∈ s.deliveredToB ++ [k] := fun j hj => List.mem_append_left _ hj
+        have hpre : pkA <+: pkA := List.prefix_refl _
+        refine ⟨hR.sentA, ?_, fun b hb aseq ranges hp x hx => (hR.ackOutB b hb aseq ranges hp x hx).mono hD hpre,
+          fun ch sA hf => (hR.relA ch sA hf).mono hD hpre⟩
+        intro x hx
+        dsimp only at hx ⊢
+        rcases (C08.pending_acks_only_received s.b b' bytes h1.invB.1 h1.invB.2 hm).2 x hx with hold | ⟨p', hdec, rfl⟩
+        · exact (hR.ackB x hold).mono hD hpre
+        · obtain ⟨p, hp, he⟩ := enc_lookup h1.encA hb
+          exact ⟨k, by simp, p, hp, (fromBytes_of_enc he hdec).1.symm⟩
+      · cases hs
+  | deliverToA k =>
+    simp only [Sys.step] at hs
+    split at hs
+    · cases hs
+    · rename_i bytes hb
+      split at hs
+      · rename_i a' hm
+        cases hs
+        obtain ⟨e1, e2⟩ := processPacket_sent h1.invA.1 hm
+        refine ⟨fun hd seq t info hf => hR.sentA (e2 hd) seq t info (e1 _ _ hf), hR.ackB, hR.ackOutB, ?_⟩
+        exact relEv_ack h1 hR (List.mem_of_getElem? hb) hm (fun ch sA hf => (h1'.chanA ch sA hf).1) h1'.invA.1
+      · cases hs
+
+/-! ## the invariants hold along every run -/
+
+/-- the ghost packet list after a run (mirrors `Sys.run`) -/
+def runPk (s : Sys) : List SysOp → List Packet → List Packet
+  | [], pk => pk
+  | op :: ops, pk =>
+    match s.step op with
+    | some s' => runPk s' ops (nextPk s op pk)
+    | none => pk
+
+theorem inv_run (cfg : Cfg) : ∀ (ops : List SysOp) (s s' : Sys) (pkA : List Packet),
+    Inv1 cfg s pkA → (CountersOK cfg s → Inv2 cfg s pkA) → InvR cfg s pkA → s.run ops = some s' →
+    Inv1 cfg s' (runPk s ops pkA) ∧ (CountersOK cfg s' → Inv2 cfg s' (runPk s ops pkA)) ∧ InvR cfg s' (runPk s ops pkA)
+  | [], s, s', pkA, h1, h2, h3, hr => by
+    simp only [Sys.run, Option.some.injEq] at hr; subst hr; exact ⟨h1, h2, h3⟩
+  | op :: ops, s, s', pkA, h1, h2, h3, hr => by
+    simp only [Sys.run] at hr
+    cases hs : s.step op with
+    | none => rw [hs] at hr; cases hr
+    | some s1 =>
+      rw [hs] at hr
+      simp only [runPk, hs]
+      exact inv_run cfg ops s1 s' _ (inv1_step h1 hs)
+        (fun hc => inv2_step h1 (h2 (counters_step h1 hs hc)) hs hc) (invR_step h1 h3 hs) hr
+
+/-- every state reachable from the initial one satisfies layer 1, and layer 2 when its counters are in range -/
+theorem system_inv (cfg : Cfg) (ops : List SysOp) (s : Sys) (hr : (Sys.init cfg).run ops = some s) :
+    ∃ pkA, Inv1 cfg s pkA ∧ (CountersOK cfg s → Inv2 cfg s pkA) ∧ InvR cfg s pkA :=
+  ⟨_, inv_run cfg ops _ s [] (inv1_init cfg) (fun _ => inv2_init cfg) (invR_init cfg) hr⟩
+
+
+theorem counters_run_from (cfg : Cfg) : ∀ (ops : List SysOp) (s s' : Sys) (pkA : List Packet),
+    Inv1 cfg s pkA → s.run ops = some s' → CountersOK cfg s' → CountersOK cfg s
+  | [], s, s', _, _, hr, hc => by
+    simp only [Sys.run, Option.some.injEq] at hr; subst hr; exact hc
+  | op :: ops, s, s', pkA, h1, hr, hc => by
+    simp only [Sys.run] at hr
+    cases hs : s.step op with
+    | none => rw [hs] at hr; cases hr
+    | some s1 =>
+      rw [hs] at hr
+      exact counters_step h1 hs (counters_run_from cfg ops s1 s' _ (inv1_step h1 hs) hr hc)
+
+/-- the counters hypothesis propagates backwards along a run -/
+theorem counters_run (cfg : Cfg) (ops1 ops2 : List SysOp) (s1 s : Sys) (hr1 : (Sys.init cfg).run ops1 = some s1)
+    (hr2 : s1.run ops2 = some s) (hc : CountersOK cfg s) : CountersOK cfg s1 := by
+  obtain ⟨pkA, h1, -⟩ := system_inv cfg ops1 s1 hr1
+  exact counters_run_from cfg ops2 s1 s pkA h1 hr2 hc
+
+
+/-- looking up a packet finds the datagram that encodes it -/
+theorem enc_lookup' {pk : List Packet} {bs : List Bytes} (h : pk.map encO = bs.map some) {k : Nat} {p : Packet}
+    (hp : pk[k]? = some p) : ∃ b, bs[k]? = some b ∧ p.enc = .ok b := by
+  have h1 : (pk.map encO)[k]? = some (encO p) := by rw [List.getElem?_map, hp]; rfl
+  rw [h, List.getElem?_map] at h1
+  cases hb : bs[k]? with
+  | none => rw [hb] at h1; cases h1
+  | some b =>
+    rw [hb] at h1
+    simp only [Option.map_some, Option.some.injEq] at h1
+    exact ⟨b, rfl, encO_some h1.symm⟩
+
+/-- a well-formed reliable packet of the ghost list is what its datagram in `outA` decodes to -/
+theorem decode_lookup {cfg : Cfg} {s : Sys} {pkA : List Packet} (h1 : Inv1 cfg s pkA) (h2 : Inv2 cfg s pkA)
+    {k : Nat} {p : Packet} (hp : pkA[k]? = some p) (hr : isRel p = true) :
+    ∃ bytes, s.outA[k]? = some bytes ∧ Packet.fromBytes bytes = .ok p := by
+  obtain ⟨b, hb, he⟩ := enc_lookup' h1.encA hp
+  obtain ⟨b', h3, h4⟩ := Packet.fromBytes_enc p (h2.wfA p (List.mem_of_getElem? hp) hr)
+  rw [he] at h3; cases h3
+  exact ⟨b, hb, h4⟩
+
+theorem Sys.run_append (s : Sys) : ∀ (a b : List SysOp), s.run (a ++ b) = (s.run a).bind (fun s' => s'.run b) := by
+  intro a
+  induction a generalizing s with
+  | nil => intro b; rfl
+  | cons op ops ih =>
+    intro b
+    simp only [List.cons_append, Sys.run]
+    cases s.step op with
+    | none => rfl
+    | some s1 => exact ih s1 b
+
+theorem some_getD {α : Type} {o : Option α} (h : o.isSome = true) (d : α) : o = some (o.getD d) := by
+  cases o with
+  | none => cases h
+  | some x => rfl
 
 end RenetVerif.System
